@@ -4,6 +4,7 @@ import InfluxQL.Lemmas.PMonad
 import InfluxQL.Lemmas.RegexGap
 import InfluxQL.Model.ParserCore
 import InfluxQL.Lemmas.RenderQuery
+import InfluxQL.Lemmas.RenderPrinted
 /-!
 # C16 — statement separation, whitespace and comments do not change meaning
 
@@ -631,6 +632,64 @@ example : ∃ pos, parseQueryText "show databases\n DROP DATABASE \"a b\"".toLis
       (fun q _ => q.2.endOK_eof)
 
 end examples
+
+/-! ## Printed queries (`Statements.String()`) as an instance
+
+For the families where it is immediate — statements without arguments, single-name statements,
+`<name> ON <db>` statements, DROP SHARD (`RenderPrinted.Printed`) — the printed form (upper-case
+keywords, `QuoteIdent`, one blank between pieces) *is* a legal rendering, so a printed query
+(statements joined by `;⏎`) is covered by `parseQuery_rendered_split`. -/
+
+open Render RenderQuery RenderPrinted in
+/-- **The printed form is a legal rendering.** `Statement.print` of a statement of these families is
+`render` of its printed spelling (keywords upper case after one blank, names as `QuoteIdent` writes
+them, no leading zeros); for well-formed parameters (names without NUL / CR, shard id within
+`uint64`) that spelling belongs to a proved family and is legal (`SpacedStmt`). -/
+theorem print_is_render (p : Printed) :
+    Render.render (p.spelled []).pieces = p.stmt.print ∧ (p.spelled []).stmt = p.stmt ∧
+      (p.WF → (p.spelled []).OK ∧ SpacedStmt (p.spelled []).pieces = true) :=
+  ⟨RenderPrinted.print_is_render [] p, p.spelled_stmt [], fun h => ⟨p.ok [] h, p.spaced [] rfl h⟩⟩
+
+open Render RenderQuery RenderPrinted in
+/-- **C16 (a) for printed queries.** A raw text whose delivered form is `Statements.String()` of
+statements of these families — `stmt₁;⏎stmt₂;⏎…` — parses (`ParseQuery`) to exactly these statements,
+in order. -/
+theorem parseQuery_printed (ps : List Printed) (hwf : ∀ p ∈ ps, p.WF) (text : Str)
+    (params : List (Str × BoundValue)) (tbl : List (Char × Char))
+    (hfold : foldCR text = printStatements (ps.map Printed.stmt)) :
+    parseQueryText text params tbl = .ok (ps.map Printed.stmt) :=
+  parseQueryText_printed ps hwf text params tbl hfold
+
+open Render RenderQuery RenderPrinted in
+/-- The printed query itself, when it contains no carriage return (a CR inside a quoted name would be
+folded to LF by the reader: names with CR are not expressible, see C05 / C06). -/
+theorem parseQuery_printed_text (ps : List Printed) (hwf : ∀ p ∈ ps, p.WF) (params : List (Str × BoundValue))
+    (tbl : List (Char × Char)) (hcr : ∀ c ∈ printStatements (ps.map Printed.stmt), c ≠ '\r') :
+    parseQueryText (printStatements (ps.map Printed.stmt)) params tbl = .ok (ps.map Printed.stmt) := by
+  refine parseQueryText_printed ps hwf _ params tbl ?_
+  have := foldCR_append_of_no_cr (printStatements (ps.map Printed.stmt)) [] hcr
+  simpa [foldCR] using this
+
+open Render RenderQuery RenderPrinted in
+/-- Non-vacuity: `SHOW DATABASES;⏎DROP DATABASE "a b";⏎DROP SHARD 7` is the printed form of the three
+statements and parses back to them. -/
+example : printStatements [.showDatabases, .dropDatabase "a b".toList, .dropShard 7] =
+      "SHOW DATABASES;\nDROP DATABASE \"a b\";\nDROP SHARD 7".toList ∧
+    parseQueryText "SHOW DATABASES;\nDROP DATABASE \"a b\";\nDROP SHARD 7".toList [] [] =
+      .ok [.showDatabases, .dropDatabase "a b".toList, .dropShard 7] := by
+  refine ⟨by decide +kernel, ?_⟩
+  exact parseQuery_printed
+    [.zeroArg ([.SHOW, .DATABASES], .parseShowDatabasesStatement, .showDatabases) (by simp [C01.zeroArgFamily]),
+     .singleName ([.DROP, .DATABASE], .parseDropDatabaseStatement, .dropDatabase) (by simp [C01.singleNameFamily])
+       "a b".toList, .dropShard 7]
+    (by
+      intro p hp
+      simp only [List.mem_cons, List.not_mem_nil, or_false] at hp
+      rcases hp with rfl | rfl | rfl
+      · trivial
+      · show Expressible "a b".toList; decide
+      · show ((7 : Nat) : Int) ≤ maxUInt64; decide)
+    _ [] [] (by decide +kernel)
 
 /-! ## Negative examples: where the side conditions bite (kernel-checked) -/
 
